@@ -24,17 +24,30 @@ THEOREMS = ["C19_precedence_table", "C19_precedence_order", "C19_flag", "C19_unc
             "C19_winner", "C19_id", "C19_manifests_differ", "C19_check", "C19_id_kept",
             "C19_succeeds_refuted_old", "C19_new_fixes_old_witnesses", "C19_satisfiable",
             "C19_check_is_C07_check", "C19_repaired_passes_C07_check", "C19_constructor_is_C07s"]
-RULE = ("entry sequences of length 0-12 over <= 3 base names with multiplicities up to 5, all file/dir/rev mixes, "
-        "equal (name,type,target) triples, equal targets under one name, targets sharing their first 5 bytes (equal "
-        "10-hex prefix), targets shorter than 5 bytes, extra entries whose name IS another entry's would-be "
-        "replacement name (<name>_<10hex>, also with _1, _2 appended), with/without explicit id (right, wrong) and "
-        "raw_manifest (right, other order, junk); thorough adds all sequences of length <= 4 over 2 names x 3 types "
-        "x 2 targets; non-trivial = at least one repeated name; distinct = distinct case")
+RULE = ("two generators. (1) general: entry sequences of length 0-14 over <= 3 base names (plain, and drawn from the "
+        "special-name alphabet below) with multiplicities up to 5, all file/dir/rev mixes, equal (name,type,target) "
+        "triples, equal targets under one name, targets sharing their first 5 bytes (equal 10-hex prefix), targets "
+        "shorter than 5 bytes, extra entries whose name IS another entry's would-be replacement name (<name>_<10hex>, "
+        "also with _1, _2 appended). (2) clash paths (about a third of the quick tier): a name from the special-name "
+        "alphabet - bytes that are special to %-formatting / str.format / escapes ('%', '%%', '%s', '%d', '%(x)s', "
+        "'{}', '{0}', backslashes), NUL-free control bytes, '_' and '__', non-UTF-8 bytes, names of 40-300 bytes, "
+        "random bytes without '/' - repeated 2-5 times with equal targets or equal 10-hex prefixes so that the "
+        "first-choice name clashes, plus blocker entries literally named <name>_<hex>, <name>_<hex>_1, _2, ... "
+        "(consecutive, sometimes with a gap, sometimes themselves duplicated so that a name equals the generated "
+        "candidate of ANOTHER duplicated name, incl. the 1-byte-target construction <name>_<hex> + '_' + '10'), a "
+        "second special group whose name is derived from the first one's candidates; the numbered path is reached "
+        "up to ~8 attempts deep. Both: with/without explicit id (right, wrong) and raw_manifest (right, other "
+        "order, junk). The share of cases that reach attempt >= 1 / >= 2 / >= 3 at all and with a special name is "
+        "in the distribution (keys attempt>=k, special-name:attempt>=k) and logged by gen(). Thorough adds all "
+        "sequences of length <= 4 over 2 names x 3 types x 2 targets, for the name pairs (a, a_<hex>), "
+        "(%, %_<hex>) and (%%s, %%s_<hex>_1). Non-trivial = at least one repeated name; distinct = distinct case")
 TRUSTED = ["Python dict insertion order, defaultdict(list).append order, set membership, b'_%d' % n, "
            "binascii.hexlify, attr.evolve re-running the validators - as modelled in model/Dedup.v",
            "C02's model of directory_git_object / the Directory validators (model/Dir.v), tied by the C02 check",
            "lib/Sha1.v is only an instance of the hash oracle (both sides hash the same bytes; compared on every case)"]
-ASSUMPTIONS = ["input domain: entries are DirectoryEntry objects, hence their names contain no '/' (DirectoryEntry.check_name)",
+ASSUMPTIONS = ["input domain: entries are DirectoryEntry objects, hence their names contain no '/' (DirectoryEntry.check_name); "
+               "every other byte value (incl. '%', '{', backslash, control and non-UTF-8 bytes, NUL) may occur in a name - the "
+               "model and the theorems treat names as arbitrary byte strings, the generators exercise those bytes on the renaming paths",
                "C19_manifests_differ assumes NUL-free names and 20-byte targets (the manifest decoder's domain)",
                "C19_check assumes that the hash function does not collide on the two manifests (original, repaired)"]
 
@@ -75,7 +88,146 @@ def old_code_fails(entries):
     return len(set(out)) < len(out)
 
 
+def attempt_depths(entries):
+    """spec-level replay of the documented naming rule (first free name among <base>, <base>_1, <base>_2, ...
+    against all original names plus the names already given): for every renamed entry, (original name, number of
+    attempts).  Used only to classify cases (which renaming path is reached), never as an expected result."""
+    names = [e[0] for e in entries]
+    if len(set(names)) == len(names):
+        return []
+    used = set(names)
+    out = []
+    for n in dict.fromkeys(names):
+        grp = [e for t in PRECEDENCE for e in entries if e[0] == n and e[1] == t]
+        for e in grp[1:]:
+            base = base_name(e[0], e[2])
+            new, k = base, 0
+            while new in used:
+                k += 1
+                new = base + b"_" + str(k).encode()
+            used.add(new)
+            out.append((n, k))
+    return out
+
+
+def is_special(name):
+    """does the name contain a byte that is special to Python formatting / escaping, a control or non-UTF-8 byte,
+    or is it very long?"""
+    if len(name) >= 40 or any(b in name for b in (b"%", b"{", b"}", b"\\")):
+        return True
+    if any(c < 0x20 or c == 0x7f for c in name):
+        return True
+    try:
+        name.decode("utf-8")
+    except UnicodeDecodeError:
+        return True
+    return False
+
+
 # ---------------------------------------------------------------- generators
+SPECIAL = [b"%", b"%%", b"%s", b"%d", b"%(x)s", b"%(", b"100%", b"50%_off", b"%5", b"%c", b"%b", b"%r", b"%a", b"%x%%",
+           b"%%d", b"a%", b"%_", b"{}", b"{0}", b"{x}", b"{", b"}}", b"{0!r:>{1}}", b"\\", b"\\\\", b"\\n", b"\\x00", b"a\\",
+           b"\\_", b"_", b"__", b"_1", b"a_", b"\x01", b"\x7f", b"\t", b"\n", b"\r\n", b"\x1b[0m", b"\x08\x0c", b"\xff",
+           b"\xff\xfe", b"\xc3", b"\xc3\x28", b"\x80%", b"\xed\xa0\x80", b"\xf8\x88", b" ", b"a b", b"$x", b"`", b"'", b'"',
+           b"*", b"?", b"~", b".", b"..", b"%\xff", b"%\n"]
+_NOSLASH = [c for c in range(1, 256) if c != 0x2f]
+
+
+def special_name(rng):
+    r = rng.random()
+    if r < 0.5:
+        return rng.choice(SPECIAL)
+    if r < 0.78:
+        return b"".join(rng.choice(SPECIAL + [b"a", b"b", b"_", b"0"]) for _ in range(rng.choice([2, 2, 3, 4])))
+    if r < 0.82:
+        return rng.choice(SPECIAL + [b"x"]) * rng.choice([40, 40, 100, 300])   # very long
+    return bytes(rng.choice(_NOSLASH) for _ in range(rng.choice([1, 2, 3, 5, 8])))
+
+
+def _id_raw(rng, es, p_none):
+    man = spec_manifest(es)
+    r = rng.random()
+    if r < p_none:
+        raw = None
+    elif r < p_none + 0.375 * (1 - p_none):
+        raw = man
+    elif r < p_none + 0.75 * (1 - p_none):
+        body = b"".join(b"%o" % e[3] + b" " + e[0] + b"\x00" + e[2] for e in es)     # unsorted: the legacy-object use
+        raw = b"tree %d\x00" % len(body) + body
+    else:
+        raw = rng.choice([b"", b"tree 0\x00", b"junk"])
+    r = rng.random()
+    if r < p_none:
+        id_ = b""
+    elif r < p_none + 0.5 * (1 - p_none):
+        id_ = hashlib.sha1(raw if raw is not None else man).digest()
+    elif r < p_none + 0.75 * (1 - p_none):
+        id_ = hashlib.sha1(man).digest()
+    else:
+        id_ = bytes(rng.randrange(256) for _ in range(rng.choice([20, 20, 1])))
+    return id_, raw
+
+
+def _clash_group(rng, nm, tg, mult, blockers):
+    """mult entries named nm whose targets share the 10-hex prefix of tg (so that all renamed ones want the same
+    first-choice name), and `blockers` entries that already bear <nm>_<hex>, <nm>_<hex>_1, ... (sometimes with a
+    gap, sometimes themselves repeated: then they are another duplicated name whose own candidates interleave)"""
+    es = []
+    one_type = rng.random() < 0.5
+    t0 = rng.choice(TYPES)
+    for _ in range(mult):
+        t = t0 if one_type else rng.choice(TYPES)
+        r = rng.random()
+        if r < 0.55 or len(tg) < 6:
+            g = tg
+        elif r < 0.9:
+            g = tg[:5] + bytes(rng.randrange(256) for _ in range(len(tg) - 5))
+        else:
+            g = bytes(rng.randrange(256) for _ in range(20))
+        es.append((nm, t, g, PERMS[t] if rng.random() < 0.85 else rng.choice([0, 0o100755, 7])))
+    base = base_name(nm, tg)
+    gap = rng.choice([None, None, None, 0, 1, 2])
+    k = 0
+    for _ in range(blockers):
+        if k == gap:
+            k += 1
+        bn = base if k == 0 else base + b"_" + str(k).encode()
+        t = rng.choice(TYPES)
+        g = rng.choice([tg, bytes(rng.randrange(256) for _ in range(20)), b"\x10", b"\x01"])
+        es.append((bn, t, g, PERMS[t]))
+        if rng.random() < 0.25:                         # the blocker is itself a duplicated name
+            es.append((bn, rng.choice(TYPES), g if rng.random() < 0.6 else tg, PERMS[t]))
+        k += 1
+    return es
+
+
+def gen_clash_case(rng):
+    """names from the special alphabet on the paths where the first-choice name is taken and numbered names are probed"""
+    nm = special_name(rng) if rng.random() < 0.9 else rng.choice([b"a", b"ab", b""])
+    tg = bytes(rng.randrange(256) for _ in range(20)) if rng.random() < 0.85 else bytes(rng.randrange(256) for _ in range(rng.choice([0, 1, 4, 5])))
+    mult = rng.choice([2, 3, 3, 4, 4, 5])
+    blockers = rng.choice([0, 0, 1, 1, 2, 3, 5])
+    es = _clash_group(rng, nm, tg, mult, blockers)
+    r = rng.random()
+    if r < 0.3:
+        # a second duplicated name, derived from the candidates of the first one
+        base = base_name(nm, tg)
+        nm2 = rng.choice([base, base + b"_1", base + b"_", nm + b"_", nm + b"_" + tg.hex().encode()[:4], base + b"_2"])
+        tg2 = rng.choice([tg, b"\x10", b"\x01", bytes(rng.randrange(256) for _ in range(20))])
+        es += _clash_group(rng, nm2, tg2, rng.choice([2, 2, 3]), rng.choice([0, 1, 2]))
+    elif r < 0.5:
+        es += _clash_group(rng, special_name(rng), tg, rng.choice([2, 3]), rng.choice([0, 1, 2]))
+    r = rng.random()
+    if r < 0.5:
+        rng.shuffle(es)
+    elif r < 0.65:
+        es.reverse()
+    es = es[:16]
+    id_, raw = _id_raw(rng, es, 0.8)
+    return {"entries": [[n_.hex(), t, g.hex(), p] for n_, t, g, p in es], "id": id_.hex(),
+            "raw": None if raw is None else raw.hex()}
+
+
 def _target(rng, pool):
     r = rng.random()
     if r < 0.55 and pool:
@@ -91,7 +243,9 @@ def _target(rng, pool):
 
 
 def gen_case(rng):
-    bases = rng.sample([b"a", b"b", b"ab", b"a_", b"a_1", b"", b"a.b", b"\xff", b"a\x00", b"0"], rng.choice([1, 1, 2, 2, 3]))
+    plain = [b"a", b"b", b"ab", b"a_", b"a_1", b"", b"a.b", b"\xff", b"a\x00", b"0"]
+    pool_names = plain if rng.random() < 0.6 else plain + [special_name(rng) for _ in range(6)]
+    bases = list(dict.fromkeys(rng.sample(pool_names, rng.choice([1, 1, 2, 2, 3]))))
     n = rng.choice([0, 1, 2, 2, 3, 3, 3, 4, 4, 5, 6, 8, 10, 12])
     mult = {b: 0 for b in bases}
     pool = []
@@ -128,26 +282,7 @@ def gen_case(rng):
     if rng.random() < 0.5:
         rng.shuffle(es)
     es = es[:14]
-    man = spec_manifest(es)
-    r = rng.random()
-    if r < 0.6:
-        raw = None
-    elif r < 0.75:
-        raw = man
-    elif r < 0.9:
-        body = b"".join(b"%o" % e[3] + b" " + e[0] + b"\x00" + e[2] for e in es)     # unsorted: the legacy-object use
-        raw = b"tree %d\x00" % len(body) + body
-    else:
-        raw = rng.choice([b"", b"tree 0\x00", b"junk"])
-    r = rng.random()
-    if r < 0.6:
-        id_ = b""
-    elif r < 0.8:
-        id_ = hashlib.sha1(raw if raw is not None else man).digest()
-    elif r < 0.9:
-        id_ = hashlib.sha1(man).digest()
-    else:
-        id_ = bytes(rng.randrange(256) for _ in range(rng.choice([20, 20, 1])))
+    id_, raw = _id_raw(rng, es, 0.6)
     return {"entries": [[n_.hex(), t, tg.hex(), p] for n_, t, tg, p in es], "id": id_.hex(),
             "raw": None if raw is None else raw.hex()}
 
@@ -163,20 +298,63 @@ WITNESS_NAME_TAKEN = _w([(b"a", "file", T1), (b"a", "file", T2), (b"a_0202020202
 
 
 def gen(rng, tier):
-    n_cases = 3000 if tier == "quick" else 100000
+    n_cases = 3100 if tier == "quick" else 115000          # every third one from the clash-path generator
+    P1, P2 = b"100%", b"%s"
     cases = [_w([]), WITNESS_EQUAL_TARGETS, WITNESS_NAME_TAKEN,
              _w([(b"a", "file", T1), (b"a", "dir", T2), (b"a", "rev", T3)]),
              _w([(b"a", "file", T1), (b"a", "file", T2), (b"a_0202020202", "file", T3), (b"a_0202020202_1", "dir", T3),
                  (b"a", "file", T2), (b"a", "file", T2)]),
-             _w([(b"a", "file", T1), (b"b", "dir", T2)])]
-    for _ in range(n_cases):
-        cases.append(gen_case(rng))
+             _w([(b"a", "file", T1), (b"b", "dir", T2)]),
+             # the same shapes with names that are special to formatting, several attempts deep
+             _w([(P1, "dir", T1), (P1, "file", T2), (P1, "file", T2), (P1, "file", T2)]),
+             _w([(P2, "file", T1), (P2, "file", T2), (P2 + b"_0202020202", "file", T3), (P2 + b"_0202020202_1", "rev", T3),
+                 (P2, "file", T2)]),
+             _w([(b"%%", "file", T1), (b"%%", "file", T1), (b"%%", "file", T1), (b"{0}", "rev", T2), (b"{0}", "rev", T2),
+                 (b"{0}", "rev", T2), (b"\\", "dir", T3), (b"\\", "dir", T3), (b"\\", "dir", T3)]),
+             # a duplicated name that equals the numbered candidate of another duplicated name (1-byte target 0x10)
+             _w([(b"%d", "file", T1)] * 3 + [(b"%d_0101010101", "file", b"\x10")] * 2)]
+    for k in range(n_cases):
+        # interleaved, so that a truncated run still sees both generators
+        cases.append(gen_clash_case(rng) if k % 3 == 2 else gen_case(rng))
     if tier == "thorough":
-        univ = [(nm, t, tg) for nm in (b"a", b"a_0101010101") for t in TYPES for tg in (T1, T1[:5] + b"\x09" * 15)]
-        for r in range(0, 5):
-            for combo in itertools.product(univ, repeat=r):
-                cases.append(_w(list(combo)))
+        TT = T1[:5] + b"\x09" * 15
+        for pair in ((b"a", b"a_0101010101"), (b"%", b"%_0101010101"), (b"%s", b"%s_0101010101_1")):
+            univ = [(nm, t, tg) for nm in pair for t in TYPES for tg in (T1, TT)]
+            for r in range(0, 5):
+                for combo in itertools.product(univ, repeat=r):
+                    cases.append(_w(list(combo)))
+    # how much of the stream reaches the numbered renaming path, and with which names
+    tot = len(cases)
+    cnt = {}
+    for c in cases:
+        for k in _depth_keys(dec_entries(c)):
+            cnt[k] = cnt.get(k, 0) + 1
+    try:
+        from . import core
+        core.log("[C19] gen: %d cases; share reaching " % tot
+                 + ", ".join("%s %.1f%%" % (k, 100.0 * cnt.get(k, 0) / tot) for k in
+                             ("attempt>=1", "attempt>=2", "attempt>=3", "special-name:attempt>=1", "special-name:attempt>=2",
+                              "special-name:attempt>=3", "percent-name:attempt>=1", "percent-name:attempt>=2")))
+    except Exception:
+        pass
     return cases
+
+
+def _depth_keys(es):
+    ks = []
+    d = attempt_depths(es)
+    if not d:
+        return ks
+    for lim in (1, 2, 3):
+        if any(k >= lim for _, k in d):
+            ks.append("attempt>=%d" % lim)
+        if any(k >= lim and is_special(n) for n, k in d):
+            ks.append("special-name:attempt>=%d" % lim)
+        if any(k >= lim and b"%" in n for n, k in d):
+            ks.append("percent-name:attempt>=%d" % lim)
+    if any(k >= 5 for _, k in d):
+        ks.append("attempt>=5")
+    return ks
 
 
 def _names(c):
@@ -202,6 +380,9 @@ def classify(c):
             ks.append("mixed-types-under-one-name")
         if old_code_fails(es):
             ks.append("old-code-would-raise")           # the repaired defect class: the attempt loop is exercised
+        ks += _depth_keys(es)                           # how deep the numbered path is reached, and with which names
+        if any(is_special(n) for n in set(ns) if ns.count(n) > 1):
+            ks.append("special-name-repeated")
     if c["id"]:
         ks.append("id-given")
     if c["raw"] is not None:
@@ -384,6 +565,15 @@ def shrink(c):
         if e[2] != T1.hex() and e[2] != T2.hex():
             for t in (T1, T2):
                 yield {"entries": es[:k] + [[e[0], e[1], t.hex(), e[3]]] + es[k + 1:], "id": c["id"], "raw": c["raw"]}
+    # shorten a name consistently in every name it is a prefix of (derived names <name>_<hex>[_k] follow)
+    for n in sorted({bytes.fromhex(e[0]) for e in es}, key=len, reverse=True):
+        if len(n) < 2:
+            continue
+        for n2 in (n[:len(n) // 2], n[:-1], n[1:]):
+            if n2 == n or b"/" in n2:
+                continue
+            yield {"entries": [[(n2 + bytes.fromhex(e[0])[len(n):]).hex() if bytes.fromhex(e[0]).startswith(n) else e[0]] + e[1:]
+                               for e in es], "id": c["id"], "raw": c["raw"]}
 
 
 # functions of /repo whose executed-line coverage by this run is reported in the evidence
